@@ -46,7 +46,7 @@ var profiles = map[string]*Profile{
 	"memo": {Name: "memo", PDep: 0.7, MinRules: 2, MaxRules: 5, UseTop: true, DynSel: 0.2, PMethod: 0.5, PRetract: 0.1, PComplete: 0.02,
 		PSetter: 0.15, PHeavy: 0.6, Saliences: []int64{-1, 0, 0, 1}, MaxActs: 3, PTrueish: 0.3},
 	"memo13": {Name: "memo13", PDep: 0.6, MinRules: 2, MaxRules: 5, UseTop: true, DynSel: 0.3, PMethod: 0.4, PRetract: 0.1, PComplete: 0.02,
-		PSetter: 0.1, PHeavy: 1, OneHeavy: true, Saliences: []int64{-1, 0, 0, 1}, MaxActs: 3, PTrueish: 0.3, POnce: 0.1},
+		PSetter: 0.1, PHeavy: 1, OneHeavy: true, PFault: 0.12, Saliences: []int64{-1, 0, 0, 1}, MaxActs: 3, PTrueish: 0.3, POnce: 0.1},
 	"fault": {Name: "fault", PDep: 0.5, MinRules: 2, MaxRules: 4, UseTop: true, DynSel: 0.4, PMethod: 0.3, PFault: 0.35, PRetract: 0.15, PComplete: 0.05,
 		Saliences: []int64{-1, 0, 0, 1}, MaxActs: 3, PTrueish: 0.4, POnce: 0.2},
 	"fetch": {Name: "fetch", MinRules: 2, MaxRules: 6, UseTop: true, DynSel: 0.2, PMethod: 0.3, PFault: 0.15, PRetract: 0.1, PComplete: 0.05,
@@ -72,7 +72,7 @@ type loc struct {
 }
 
 func (g *Gen) intLocs() []loc {
-	ls := []loc{{"F.X", true}, {"F.Y", true}, {"F.Z", true}, {"F.K", false}, {"F.W", false}, {"F.P.V", true},
+	ls := []loc{{"F.X", true}, {"F.Y", true}, {"F.Z", true}, {"F.H", true}, {"F.K", false}, {"F.W", false}, {"F.P.V", true},
 		{"F.M[\"a\"]", true}, {"F.M[\"b\"]", true}, {"F.X", true}, {"F.Y", true}}
 	if g.p.UseTop {
 		ls = append(ls, loc{"N", true}, loc{"N", true})
@@ -245,6 +245,24 @@ func (g *Gen) genAction(self string) *Action {
 		return &Action{Kind: "complete"}
 	case c < g.p.PRetract+g.p.PComplete+g.p.PSetter:
 		return &Action{Kind: "set", Name: []string{"SetX", "SetY"}[g.pick(2)], E: g.exactInt(1)}
+	}
+	if g.chance(g.p.PFault * 0.4) {
+		// an assignment whose target may not exist: element out of range, field behind a nil pointer
+		e, _ := g.genInt(1)
+		var t *Path
+		switch g.pick(3) {
+		case 0:
+			off := int64(2)
+			if g.dynArr {
+				off = 1
+			}
+			t = P("F.Arr").With(Step{Sel: &Bin{Op: "+", L: P("F.I"), R: CI(off)}, SelT: "i"})
+		case 1:
+			t = P("F.Q.V")
+		default:
+			t = P("F.P.V")
+		}
+		return &Action{Kind: "asg", Path: t, Form: []string{"=", "+="}[g.pick(2)], E: e}
 	}
 	switch k := g.pick(10); {
 	case k == 0:
@@ -423,7 +441,7 @@ func (g *Gen) Program() *Program {
 // World generates an initial fact state.
 func (g *Gen) World() *World {
 	v := func() int64 { return int64(g.pick(5)) }
-	f := &Fact{X: v(), Y: v(), Z: v(), K: int(v()), W: int32(v()), B: g.chance(0.5), C: g.chance(0.5),
+	f := &Fact{X: v(), Y: v(), Z: v(), H: v(), K: int(v()), W: int32(v()), B: g.chance(0.5), C: g.chance(0.5),
 		S: []string{"", "a", "b", "ab"}[g.pick(4)], T: []string{"", "a", "b"}[g.pick(3)], I: int64(g.pick(2)),
 		P: &Sub{V: v(), S: []string{"", "a"}[g.pick(2)]}, Arr: []int64{v(), v()}, M: map[string]int64{"a": v(), "b": v()}}
 	if g.p.PFault > 0 {
